@@ -44,6 +44,11 @@ func main() {
 		return
 	}
 	seed, _ := strconv.ParseInt(os.Getenv("VERIF_SEED"), 10, 64)
+	if strings.Contains(*prop, ",") || *prop == "all" {
+		*prop = strings.Trim(*prop, ",")
+		// self-test mode: several properties over one loaded program (the registered commands run one property per process)
+		os.Exit(runMany(*prop, *tier, *repo, *verif, seed))
+	}
 	chk := rules.Registry[*prop]
 	if chk == nil {
 		var ids []string
@@ -98,4 +103,67 @@ func main() {
 		code = l.Finish(*verif, start, seed, cmd)
 	}()
 	os.Exit(code)
+}
+
+// runMany runs the listed properties one after the other on one loaded
+// program and prints "PROP <id> exit=<code>" after each. Used by the
+// regression scripts only.
+func runMany(list, tier, repo, verif string, seed int64) int {
+	var ids []string
+	if list == "all" {
+		for k := range rules.Registry {
+			ids = append(ids, k)
+		}
+		sort.Strings(ids)
+	} else {
+		ids = strings.Split(list, ",")
+	}
+	worst := 0
+	var c *core.Ctx
+	func() {
+		defer func() {
+			if r := recover(); r != nil {
+				fmt.Fprintf(os.Stderr, "INFRASTRUCTURE: load failed: %v\n", r)
+				worst = 2
+			}
+		}()
+		c = core.Load(core.Config{RepoDir: repo, Tier: tier})
+		rules.EnsureAliases(c)
+	}()
+	if c == nil {
+		return 2
+	}
+	for _, id := range ids {
+		chk := rules.Registry[id]
+		if chk == nil {
+			fmt.Fprintf(os.Stderr, "unknown property %q\n", id)
+			worst = 2
+			continue
+		}
+		code := 2
+		start := time.Now()
+		func() {
+			defer func() {
+				if r := recover(); r != nil {
+					if ie, ok := r.(*core.InfraError); ok {
+						fmt.Fprintf(os.Stderr, "INFRASTRUCTURE: %s\n", ie.Msg)
+					} else {
+						fmt.Fprintf(os.Stderr, "INFRASTRUCTURE: checker panic: %v\n%s\n", r, debug.Stack())
+					}
+				}
+			}()
+			l := core.NewLedger(id, tier)
+			l.Trusted = rules.TrustedBase
+			chk(c, l)
+			for k, v := range c.Units {
+				l.Units[k] = v
+			}
+			code = l.Finish(verif, start, seed, "./bin/vcheck -p "+id)
+		}()
+		fmt.Printf("PROP %s exit=%d\n", id, code)
+		if code > worst {
+			worst = code
+		}
+	}
+	return worst
 }
